@@ -41,7 +41,7 @@ CHECKS = {
             "Final-chunk-before-trailing-data order deliberately unconstrained; corpus written by REF; AEAD unforgeability assumed.",
             "DESIGN.md §6 C04"),
     "C05": ("exploration", "E-GRID",
-            "exhaustive enumeration of key-role assignments (real encryptor and an independent REF forger), field mixes and special X25519 encodings Plus: claimed sender = each small-order point, a keyless reader trying publicly derivable secrets on files made with library-chosen randomness, and a 48-file sequence of auto-keyed encryptions in one thread (no recipient reads another's file).",
+            "exhaustive enumeration of key-role assignments (real encryptor and an independent REF forger), field mixes and special X25519 encodings Plus: claimed sender = each small-order point, a keyless reader trying publicly derivable secrets on files made with library-chosen randomness, and a 48-file sequence of auto-keyed encryptions in one thread (no recipient reads another's file). The keyless reader also runs on whatever `kestrel encrypt` produces under every answer schedule of getrandom(2) (LD_PRELOAD shim: per call index persistent failure / EINTR / EAGAIN / 1-byte answer).",
             "All 4^4 (private key used, public key claimed, recipient addressed, decrypting key) tuples through the real key_encrypt/key_decrypt; the same tuples through a REF forger "
             "with 9 forging degrees (claimed != used, ss skipped/zero/from e, recipient hashed != used, es/ss to another recipient, ephemeral mismatch); all 2^4 mixes of "
             "(e, enc_s, enc_payload, chunks) from pairs of authentic files; all 52 small-order and non-canonical u-coordinates as recipient of key_encrypt (refused with zero bytes written, "
@@ -56,7 +56,7 @@ CHECKS = {
             "REF (OpenSSL-based, self-tested against RFC vectors and the cacophony Noise-X vector) is the meaning of 'documented format'; only two genuine 1.x artefacts exist.",
             "DESIGN.md §6 C06"),
     "C07": ("model_checking", "E-GRAPH",
-            "explicit-state breadth-first search (stateright) over operation histories, each history executed on the real library/CLI; RNG-seam perturbation of every delivered byte; per-file nonce check Plus 150/600 rounds of repeated library operations in one thread and the per-file nonce check under every schedule with <=2 interrupted calls.",
+            "explicit-state breadth-first search (stateright) over operation histories, each history executed on the real library/CLI; RNG-seam perturbation of every delivered byte; per-file nonce check Plus 150/600 rounds of repeated library operations in one thread and the per-file nonce check under every schedule with <=2 interrupted calls. Every CLI operation that draws randomness runs twice under every answer schedule of getrandom(2) (LD_PRELOAD shim: per call index persistent failure / EINTR / EAGAIN / 1-byte answer; 1-byte answers throughout): a run may refuse, any exit-0 output must still be fresh.",
             "States are operation histories of length <=2 (quick) / <=3 (thorough) over six randomness-consuming operations with identical inputs (library and CLI); in every state the history "
             "is executed and all fresh values (ephemeral, payload and file keys recovered by REF, salts, generated private keys) must be pairwise distinct and differ from given values. "
             "Through the RNG seam every byte of the CSPRNG stream is perturbed: outputs are a deterministic function of the stream and each fresh field depends on >=32 stream positions. "
@@ -64,7 +64,7 @@ CHECKS = {
             "getrandom quality trusted; CLI operations use the real CSPRNG (verdict re-checked once before reporting).",
             "DESIGN.md §6 C07"),
     "C08": ("exploration", "E-GRID",
-            "exhaustive product enumeration of identity pairs x plaintexts x partitions with pairwise differential comparison; byte-pattern scan; CLI product",
+            "exhaustive product enumeration of identity pairs x plaintexts x partitions with pairwise differential comparison; byte-pattern scan; CLI product Plaintext offered on stdin in five shapes (beginning with lines equal to the password) x {password from environment, no password source} x {stdout, -o}: any file produced is the conforming encryption of the whole of stdin.",
             "All 16 ordered (sender, recipient) pairs x 3 plaintexts x up to 4 read partitions x 2 payload keys with one fixed ephemeral key: files that differ only in identities are compared "
             "pairwise (identical magic, e, chunk headers and length; length == 132/36 + 32*records + |P|); every file is scanned for every party's key (raw, hex, keyring encoding, base64 in any "
             "byte phase and both alphabets) and must be read back completely by REF; all four (ephemeral, ephemeral_public) option combinations; password mode; CLI for all 9 ordered pairs "
@@ -120,7 +120,7 @@ CHECKS = {
             "Real CSPRNG in the CLI: bytes differ between runs, verdicts may not (re-executed once before reporting).",
             "DESIGN.md §6 C14"),
     "C15": ("exploration", "E-GRID",
-            "exhaustive enumeration of (key x password x salt), password pairs, all 672 single-bit changes and string shapes against the REF implementation of the documented locked-key format CLI level: `key extract-pub` for all ordered pairs of a 14-word UTF-8 password alphabet and `key change-pass` to each of its words (result must unlock under REF with exactly that password).",
+            "exhaustive enumeration of (key x password x salt), password pairs, all 672 single-bit changes and string shapes against the REF implementation of the documented locked-key format CLI level: `key extract-pub` for all ordered pairs of a 14-word UTF-8 password alphabet and `key change-pass` to each of its words (result must unlock under REF with exactly that password). CLI: every single-bit change of a locked key is refused by `key extract-pub` (673 runs).",
             "lock_private_key/unlock_private_key compiled from the working tree: Rust lock == REF lock byte for byte; round trip both ways between Rust and REF (incl. non-clamped keys); "
             "all ordered password pairs reject; every single-bit change of the 84-byte blob rejects; every string length 0..130 and every single-character substitution from a class alphabet "
             "is rejected or agrees with REF, without panic.",
@@ -135,7 +135,7 @@ CHECKS = {
             "Real CSPRNG in the CLI (verdict re-checked once); REF implements the documented locked-key format.",
             "DESIGN.md §6 C16"),
     "C17": ("exploration", "E-GRID",
-            "exhaustive enumeration of line-token sequences, decorated lines, line-shape grid, tool-written names and key strings against a reference reading of the keyring format Plus every sequence of <=4/5 complete sections over a 12-section alphabet (non-adjacent duplicates, bad-checksum copies, case variants) and names typed at `kestrel key generate` reading back as written.",
+            "exhaustive enumeration of line-token sequences, decorated lines, line-shape grid, tool-written names and key strings against a reference reading of the keyring format Plus every sequence of <=4/5 complete sections over a 12-section alphabet (non-adjacent duplicates, bad-checksum copies, case variants) and names typed at `kestrel key generate` reading back as written. CLI level through the public interface only: `kestrel decrypt` with every sequence of <=2/3 complete sections (12-section alphabet incl. bad-checksum copies and case variants) plus the recipient section, for three senders, must refuse bad keyrings and name the sender exactly as the file says. If the internal API of src/cli/src/keyring.rs changes so that the in-process adapter no longer compiles, ./check rebuilds without it and the CLI-level parts decide (recorded in the evidence).",
             "Every sequence of <=6 (quick) / <=7 (thorough) lines over a 14-token alphabet, every sequence of <=3/4 decorated lines, a single-line shape grid (every ASCII length 0..140 followed by "
             "multi-byte characters, in every line role), the serialize->parse round trip for every name of <=3 characters over a 9-character alphabet plus boundary lengths, and every "
             "single-character substitution / checksum perturbation of encoded public keys: the real parser (compiled from the working tree) must never crash, must reject texts that "
